@@ -4,7 +4,7 @@ import brokercheck, brokerlib, monitors, vlib
 
 
 def run(res):
-    brokercheck.run(res, "C20", "Props/C20.v", monitors.monitor_c20, focus="counts")
+    brokercheck.run(res, "C20", ["Props/C20.v", "Props/C20_history.v"], monitors.monitor_c20, focus="counts")
 
 
 def replay(path):
